@@ -215,10 +215,33 @@ class Builder:
     def _sequence(self, e: ast.AST, depth: int) -> List[Seg]:
         """elements of a list / tuple / comprehension over a literal tuple, concatenated"""
         if isinstance(e, ast.Name):
-            ds = N.defs(self.fn).get(e.id, [])
-            if len(ds) == 1 and not isinstance(ds[0], ast.AugAssign) and e.id not in self.fn.params:
-                return self._sequence(ds[0], depth)
-            return [Seg("expr", N.canon(e), e)]
+            if e.id in self.fn.params:
+                return [Seg("expr", N.canon(e), e)]
+            # a local list: its literal definition, then .append(x) / .extend([..]) / += [..] in textual order (guards recorded)
+            evs = []
+            for s_ in A.stores(self.fn):
+                if A.dotted(s_.target) != e.id:
+                    continue
+                if isinstance(s_.node, (ast.Assign, ast.AnnAssign)) and getattr(s_.node, "value", None) is not None:
+                    evs.append((A.seq(s_.stmt), "def", s_.node.value, s_.stmt))
+                elif isinstance(s_.node, ast.AugAssign) and isinstance(s_.node.op, ast.Add):
+                    evs.append((A.seq(s_.stmt), "extend", s_.node.value, s_.stmt))
+                elif s_.kind == "mutcall" and isinstance(s_.node, ast.Call) and isinstance(s_.node.func, ast.Attribute) \
+                        and s_.node.func.attr in ("append", "extend") and len(s_.node.args) == 1:
+                    evs.append((A.seq(s_.stmt), s_.node.func.attr, s_.node.args[0], s_.stmt))
+                else:
+                    return [Seg("expr", N.canon(e), e)]
+            evs.sort(key=lambda t: t[0])
+            if not evs or evs[0][1] != "def" or sum(1 for t in evs if t[1] == "def") != 1:
+                return [Seg("expr", N.canon(e), e)]
+            out: List[Seg] = []
+            for _, kind, val, stmt in evs:
+                segs = self.eval(val, depth + 1) if kind == "append" else self._sequence(val, depth + 1)
+                g = _guard_of(stmt, self.fn.node)
+                for x in segs:
+                    x.guard = x.guard or g
+                out += segs
+            return out
         if isinstance(e, (ast.List, ast.Tuple)):
             out: List[Seg] = []
             for x in e.elts:
